@@ -344,6 +344,14 @@ func multiSplit(value string, seps ...string) []string {
 // anywhere near the limit.
 const maxShorthandComponents = 256
 
+// maxShorthandPieceComponents bounds the number of components handed to the
+// handler of a single sub-property. Without it every run of up to 256
+// components is joined and checked by every sub-handler: half a kilobyte of
+// ", , , ..." still took seconds. The value of one sub-property (a font
+// family list with spaces after the commas is the longest in practice) has
+// nowhere near that many components.
+const maxShorthandPieceComponents = 16
+
 func recursiveCheck(value []string, funcs []func(string) bool) bool {
 	if len(value) > maxShorthandComponents {
 		return false
@@ -357,7 +365,7 @@ func recursiveCheckMemo(value []string, funcs []func(string) bool, failed map[in
 	if failed[len(value)] {
 		return false
 	}
-	for i := 0; i < len(value); i++ {
+	for i := 0; i < len(value) && i < maxShorthandPieceComponents; i++ {
 		tempVal := strings.Join(value[:i+1], " ")
 		for _, j := range funcs {
 			if j(tempVal) && (len(value[i+1:]) == 0 || recursiveCheckMemo(value[i+1:], funcs, failed)) {
